@@ -175,12 +175,15 @@ func newCeremony(c cfg) (*cer, error) {
 	return ce, nil
 }
 
+// scratchBase is the run's -dir (set by main); ceremonies write their node directories below it.
+var scratchBase string
+
 // runOnce runs dkg.Run for all nodes in this process over loopback TCP (the nodes learn each
 // other's listen address through TestConfig.P2PNodeCallback, as the repo's own tests do).
 func (ce *cer) runOnce(timeout time.Duration) (string, []error) {
 	c := ce.c
 	rng := hx.NewRng(c.sched)
-	dir, err := os.MkdirTemp("", "dkgrun")
+	dir, err := os.MkdirTemp(scratchBase, "dkgrun") // under the run's own scratch directory, never under /tmp
 	hx.Must(err)
 	var mu sync.Mutex
 	var hosts []host.Host
